@@ -169,7 +169,7 @@ P_C03 == (Quiescent \/ pc = "CB2") => \A qi \in Insts : ~sawexc[qi] =>
                       /\ \A qk \in LedgerKeys : (ledger[qi][qk] = 1) <=> (qk \in QActiveKeys(qi))
                  ELSE \A qk \in LedgerKeys : ledger[qi][qk] = 0      \* stop() exited everything exactly once
 \* a substate is only entered while its submachine is entered
-QParentOf(qm) == CHOOSE qp \in Machines : qm \in StatesOf(qp)
+QParentOf(qm) == ParentOf(qm)
 P_C03b == (pc = "CB2" /\ QLen > 0 /\ obs[QLen].k = "en" /\ obs[QLen].m # Def.root /\ ~sawexc[obs[QLen].i]) =>
              ledger[obs[QLen].i][<<QParentOf(obs[QLen].m), obs[QLen].m>>] = 1
 
@@ -280,6 +280,16 @@ P_C15 == (Quiescent /\ lastcall.op \in {"pe", "enq", "drain", "drain1", "start",
                   /\ pool[qj] = pre.all[4][qj] /\ hist[qj] = pre.all[5][qj] /\ running[qj] = pre.all[6][qj]
 \* reachability probe: the excused pattern (used to confirm that the finding still exists on the model)
 P_NoF6 == ~QExcusedF6
+
+\* ---------------------------------------------------------------- C16: serialization round trip
+\* right after a load the new machine has the source's active ids at every level (also of inactive submachines), its history memory
+\* and the data of every state / front-end that opts in; nothing else of the source changed
+P_C16 == (Quiescent /\ lastcall.op = "saveload") =>
+            LET qj == lastcall.i   qi == lastcall.p IN
+            /\ active[qj] = active[qi] /\ hist[qj] = hist[qi]
+            /\ \A qk \in LedgerKeys : SerKey(qk) => encnt[qj][qk] = encnt[qi][qk]
+            /\ \A qm \in Machines : mq[qj][qm] = <<>> /\ dq[qj][qm] = <<>>
+            /\ active[qi] = pre.all[1][qi] /\ hist[qi] = pre.all[5][qi]
 
 \* ---------------------------------------------------------------- placeholders decided by conformance only (see DESIGN.md)
 \* position of the first deferral of payload qp
